@@ -10,6 +10,14 @@ package sendx
 import (
 	"bytes"
 	"context"
+	"crypto/ecdsa"
+	"crypto/elliptic"
+	crand "crypto/rand"
+	"crypto/tls"
+	"crypto/x509"
+	"crypto/x509/pkix"
+	"math/big"
+	"sync"
 	"errors"
 	"fmt"
 	"hash/adler32"
@@ -53,6 +61,10 @@ func (s MsgSpec) errText() string {
 
 // Case is a parsed case line.
 type Case struct {
+	// TLS is the client's TLS policy: 'N' NoTLS (default), 'O' TLSOpportunistic, 'M' TLSMandatory.  CapsTLS is
+	// what the server advertises in the EHLO reply inside TLS (may be empty; only meaningful when TLS != 'N').
+	TLS     byte
+	CapsTLS []string
 	Caps   []string
 	Ret    string // DSN MAIL RET option ("" = unset)
 	Notify string // DSN RCPT NOTIFY options, comma separated ("" = unset)
@@ -124,6 +136,13 @@ func (c *Case) Args() []string {
 	if len(c.Caps) > 0 {
 		caps = strings.Join(c.Caps, ",")
 	}
+	if c.TLS == 'O' || c.TLS == 'M' {
+		after := "-"
+		if len(c.CapsTLS) > 0 {
+			after = strings.Join(c.CapsTLS, ",")
+		}
+		caps += "/" + string(c.TLS) + "/" + after
+	}
 	ret, notify := "-", "-"
 	if c.Ret != "" {
 		ret = c.Ret
@@ -159,9 +178,17 @@ func ParseCase(args []string) (*Case, error) {
 	if len(args) < 6 {
 		return nil, fmt.Errorf("case needs 6 fields, has %d", len(args))
 	}
-	c := &Case{}
-	if args[0] != "-" {
-		c.Caps = strings.Split(args[0], ",")
+	c := &Case{TLS: 'N'}
+	capTok := strings.Split(args[0], "/")
+	if capTok[0] != "-" {
+		c.Caps = strings.Split(capTok[0], ",")
+	}
+	if len(capTok) == 3 && (capTok[1] == "O" || capTok[1] == "M") {
+		c.TLS = capTok[1][0]
+		c.CapsTLS = []string{}
+		if capTok[2] != "-" {
+			c.CapsTLS = strings.Split(capTok[2], ",")
+		}
 	}
 	if args[1] != "-" {
 		c.Ret = args[1]
@@ -368,7 +395,17 @@ func RunCase(c *Case) *Result {
 	}
 	srv := smtpx.NewServer(c.Caps, c.Script)
 	d := &smtpx.Dialer{Srv: srv}
-	opts := []mail.Option{mail.WithTLSPolicy(mail.NoTLS), mail.WithDialContextFunc(d.Dial),
+	policy := mail.NoTLS
+	serverTLS, clientTLS := tlsConfigs()
+	srv.TLSConfig = serverTLS
+	if c.TLS == 'O' || c.TLS == 'M' {
+		policy = mail.TLSOpportunistic
+		if c.TLS == 'M' {
+			policy = mail.TLSMandatory
+		}
+		srv.CapsAfterTLS = append([]string{}, c.CapsTLS...) // non-nil also when empty
+	}
+	opts := []mail.Option{mail.WithTLSPolicy(policy), mail.WithTLSConfig(clientTLS), mail.WithDialContextFunc(d.Dial),
 		mail.WithTimeout(1500 * time.Millisecond), mail.WithHELO(HeloName)}
 	if c.Ret != "" {
 		opts = append(opts, mail.WithDSNMailReturnType(mail.DSNMailReturnOption(c.Ret)))
@@ -506,7 +543,7 @@ func (r *Result) dialogue() []smtpx.Event {
 		if e.Verb == "EOD-MISSING" {
 			continue
 		}
-		if !r.DialOK && e.Verb != "GREETING" && e.Verb != "EHLO" && e.Verb != "HELO" {
+		if !r.DialOK && e.Verb != "GREETING" && e.Verb != "EHLO" && e.Verb != "HELO" && e.Verb != "STARTTLS" {
 			break
 		}
 		out = append(out, e)
@@ -580,6 +617,20 @@ func (r *Result) ObsC20() string {
 // first read that reports the end of the connection: nothing written afterwards reaches a server.
 func (r *Result) OutOfStep() []string {
 	ops := r.Ops
+	// after STARTTLS the connection carries TLS records: the analysis covers the plain-text prefix
+	for i, op := range ops {
+		if op.Kind == 'W' && bytes.Contains(op.Data, []byte("STARTTLS\r\n")) {
+			j := i + 1
+			for j < len(ops) && !(ops[j].Kind == 'R' && len(ops[j].Data) > 0) {
+				j++
+			}
+			if j < len(ops) {
+				j++
+			}
+			ops = ops[:j]
+			break
+		}
+	}
 	for i, op := range ops {
 		if op.Kind == 'R' && (op.Err == "EOF" || op.Err == "closed") {
 			ops = ops[:i]
@@ -587,4 +638,39 @@ func (r *Result) OutOfStep() []string {
 		}
 	}
 	return smtpx.InStep(ops)
+}
+
+// ---------- TLS material (generated once per process) ----------
+
+var (
+	tlsOnce   sync.Once
+	tlsServer *tls.Config
+	tlsClient *tls.Config
+)
+
+// tlsConfigs returns the server configuration (a certificate for verif.test created at run time) and a client
+// configuration that trusts exactly that certificate and expects the name verif.test.
+func tlsConfigs() (*tls.Config, *tls.Config) {
+	tlsOnce.Do(func() {
+		key, err := ecdsa.GenerateKey(elliptic.P256(), crand.Reader)
+		if err != nil {
+			panic(err)
+		}
+		tmpl := &x509.Certificate{
+			SerialNumber: big.NewInt(1), Subject: pkix.Name{CommonName: "verif.test"}, DNSNames: []string{"verif.test"},
+			NotBefore: time.Now().Add(-time.Hour), NotAfter: time.Now().Add(24 * time.Hour),
+			KeyUsage: x509.KeyUsageDigitalSignature | x509.KeyUsageCertSign, ExtKeyUsage: []x509.ExtKeyUsage{x509.ExtKeyUsageServerAuth},
+			IsCA: true, BasicConstraintsValid: true,
+		}
+		der, err := x509.CreateCertificate(crand.Reader, tmpl, tmpl, &key.PublicKey, key)
+		if err != nil {
+			panic(err)
+		}
+		cert, _ := x509.ParseCertificate(der)
+		pool := x509.NewCertPool()
+		pool.AddCert(cert)
+		tlsServer = &tls.Config{Certificates: []tls.Certificate{{Certificate: [][]byte{der}, PrivateKey: key}}, MinVersion: tls.VersionTLS12}
+		tlsClient = &tls.Config{RootCAs: pool, ServerName: "verif.test", MinVersion: tls.VersionTLS12}
+	})
+	return tlsServer, tlsClient
 }
